@@ -12,6 +12,8 @@ import (
 )
 
 type Engine struct {
+	globalWritten map[*ssa.Global]bool
+	globalScanned map[*ssa.Package]bool
 	writeMemo   map[*ssa.Function]map[string]heapTypeInfo
 	prog        *ssa.Program
 	pkgs        []*packages.Package
@@ -62,6 +64,88 @@ func (e *Engine) FindFunc(pkgPath, short string) *ssa.Function {
 		}
 	}
 	return found
+}
+
+// neverWritten: no instruction of the global's package stores to it or lets its address escape.
+func (e *Engine) neverWritten(g *ssa.Global) bool {
+	if e.globalWritten == nil {
+		e.globalWritten = map[*ssa.Global]bool{}
+		e.globalScanned = map[*ssa.Package]bool{}
+	}
+	pkg := g.Pkg
+	if pkg == nil {
+		return false
+	}
+	if !e.globalScanned[pkg] {
+		e.globalScanned[pkg] = true
+		var visit func(fn *ssa.Function)
+		seen := map[*ssa.Function]bool{}
+		visit = func(fn *ssa.Function) {
+			if fn == nil || seen[fn] {
+				return
+			}
+			seen[fn] = true
+			for _, b := range fn.Blocks {
+				for _, ins := range b.Instrs {
+					for _, op := range ins.Operands(nil) {
+						gg, ok := (*op).(*ssa.Global)
+						if !ok {
+							continue
+						}
+						// the only harmless use is a direct load
+						if u, isLoad := ins.(*ssa.UnOp); isLoad && u.Op == token.MUL {
+							continue
+						}
+						if _, isDbg := ins.(*ssa.DebugRef); isDbg {
+							continue
+						}
+						if call, isCall := ins.(*ssa.Call); isCall {
+							if sc := call.Common().StaticCallee(); sc != nil {
+								switch sc.String() {
+								case "(*github.com/holiman/uint256.Int).Cmp", "(*github.com/holiman/uint256.Int).Eq", "(*github.com/holiman/uint256.Int).IsZero",
+									"(*math/big.Int).Cmp", "(*math/big.Int).Sign":
+									continue // read-only uses
+								}
+							}
+						}
+						if sl, isSlice := ins.(*ssa.Slice); isSlice && sl.X == *op {
+							// slicing an array variable: reads only if the slice is only read; be conservative
+							if refs := sl.Referrers(); refs != nil {
+								readOnly := true
+								for _, r := range *refs {
+									if c, isCall := r.(*ssa.Call); isCall && c.Common().StaticCallee() != nil && c.Common().StaticCallee().String() == "bytes.Equal" {
+										continue
+									}
+									readOnly = false
+								}
+								if readOnly {
+									continue
+								}
+							}
+						}
+						e.globalWritten[gg] = true
+					}
+				}
+			}
+			for _, a := range fn.AnonFuncs {
+				visit(a)
+			}
+		}
+		for _, m := range pkg.Members {
+			switch x := m.(type) {
+			case *ssa.Function:
+				visit(x)
+			case *ssa.Type:
+				for _, t := range []types.Type{x.Type(), types.NewPointer(x.Type())} {
+					ms := e.prog.MethodSets.MethodSet(t)
+					for i := 0; i < ms.Len(); i++ {
+						visit(e.prog.MethodValue(ms.At(i)))
+					}
+				}
+			}
+		}
+	}
+	return !e.globalWritten[g]
 }
 
 // FuncsInFiles lists the functions (methods and closures included) declared in the given files.
@@ -129,7 +213,7 @@ func (e *Engine) FuncsInFiles(files []string) []*ssa.Function {
 
 func (e *Engine) NewRun(fn *ssa.Function) *FuncRun {
 	return &FuncRun{eng: e, w: NewWorld(), fn: fn, names: map[string]int{}, assumed: map[string]bool{}, allWrites: newWriteSet(), allocTop: "AllocBase", stats: map[string]int{},
-		freshHeapWrites: map[string]bool{}, oldHeapWrites: map[string]bool{}, freshRefs: map[string]bool{}, ordCache: map[*ssa.Function]map[*ssa.CallCommon]int{}}
+		constGlobals: map[string]string{}, freshHeapWrites: map[string]bool{}, oldHeapWrites: map[string]bool{}, freshRefs: map[string]bool{}, ordCache: map[*ssa.Function]map[*ssa.CallCommon]int{}}
 }
 
 // inferredWrites runs the body of fn in scouting mode and returns the content heaps
